@@ -330,6 +330,11 @@ func failingCases(ob *Obligation) []string {
 			out = append(out, m[1])
 		}
 	}
+	// the audit must have run to its end ("bounded: END <audit>"): a failure on another path (early return,
+	// panic) is not allowed to hide behind failing cases that are listed as known findings
+	if len(out) > 0 && !regexp.MustCompile(`(?m)^bounded: END `+regexp.QuoteMeta(strings.TrimPrefix(ob.Name, "bounded:"))+`\s*$`).MatchString(ob.Output) {
+		out = append(out, "(the-audit-did-not-run-to-its-end)")
+	}
 	sort.Strings(out)
 	return out
 }
